@@ -55,6 +55,35 @@ def cases(draw, rot=0):
     lines = [it.render(ir.Style(0)) for it in prog.items]
     labels = [it.name for it in prog.items if it.kind == 'label']
     cls, text = draw(st.sampled_from(FAULTS[rot:] + FAULTS[:rot]))   # Hypothesis favours the first entries: rotate per shard
+    if draw(st.integers(0, 3)) == 0:
+        # mutation of a valid instruction line of this very program (operands only: dropped, doubled, swapped, replaced by junk)
+        cand = [ln for ln, it in zip(lines, prog.items) if it.kind in ('insn', 'pseudo') and len(ln.split()) >= 2]
+        if cand:
+            import random
+            rnd = random.Random(draw(st.integers(0, 2 ** 32)))
+            base = rnd.choice(cand)
+            toks = base.replace(',', ' ').split()
+            head, ops = toks[0], toks[1:]
+            k = rnd.randrange(7)
+            junk = ['x99', 'q1', '+', '(', ')', '%hi', '%lo(', '%offset', '99999999999', '1.5', '1 +', "'ab'", '0x', '-', '%position(', 'x1x', '$', '1//0', '""']
+            if k == 0 and ops:
+                del ops[rnd.randrange(len(ops))]
+            elif k == 1 and ops:
+                j = rnd.randrange(len(ops))
+                ops.insert(j, ops[j])
+            elif k == 2 and ops:
+                ops[rnd.randrange(len(ops))] = rnd.choice(junk)
+            elif k == 3:
+                ops.append(rnd.choice(junk))
+            elif k == 4 and len(ops) >= 2:
+                a, b = rnd.sample(range(len(ops)), 2)
+                ops[a], ops[b] = ops[b], ops[a]
+            elif k == 5:
+                ops = []
+            else:
+                ops.insert(rnd.randrange(len(ops) + 1), rnd.choice(junk))
+            mutated = head + ' ' + ', '.join(ops) + '   # mutated line 4711'
+            cls, text = 'mutated', mutated
     needs_far = '{far}' in text
     text = text.replace('{label}', labels[0] if labels else 'nowhere_0')
     if needs_far:
